@@ -530,6 +530,8 @@ def execute(world, sb, res):
                             res.probe("semtok_nonempty")
                         if text is not None:
                             lines = lsp_client.split_lines(text)
+                            plain_text = all(ord(c) < 128 for c in text) and "\r" not in text
+                            semtok_off = []
                             for (ln, ch, length, tt, tm) in decode_semtok(data):
                                 res.metric("ranges_checked")
                                 if ln >= len(lines):
@@ -538,6 +540,16 @@ def execute(world, sb, res):
                                 if tt > 7:
                                     res.violate("C20.semtok-shape", "semtok", "token type %d outside the legend\n%s" % (tt, ctx()))
                                     break
+                                if plain_text and tt not in (2, 4):
+                                    # pure ASCII text with LF line ends: the server's lines and byte columns are the protocol's lines and
+                                    # UTF-16 columns, so a token that is not a string or comment must cover a non-blank stretch of its line
+                                    piece = lines[ln][ch:ch + length]
+                                    res.metric("semtok_plain_text_tokens_checked")
+                                    if len(piece) != length or not piece.strip() or piece != piece.strip() or length == 0:
+                                        semtok_off.append((ln, ch, length, tt, piece))
+                                        if len(semtok_off) == 1:
+                                            res.violate("C20.semtok-text", "plain-text", "in a pure ASCII / LF document the semantic token (line %d, char %d, length %d, "
+                                                        "type %d) covers %r, which is not a token of the text\ntext: %r\n%s" % (ln, ch, length, tt, piece, text[:600], ctx()))
                                 if ch + length > lsp_client.utf16_len(lines[ln]):
                                     res.metric("semtok_character_beyond_line_end")
                                     if tt not in (2, 4) and all(ord(c) < 128 for c in lines[ln]):
